@@ -15,7 +15,8 @@
        parked?, member external ids) where "hash class" identifies ClaimHash() among the claims of a history;
      - sdkmath.Int is Z, uint64 nonces are Z (no wrap; nonces stay far below 2^63);
      - the staking module is reduced to two flags per oracle: "a delegation exists" and "an unbonding
-       entry exists" (what GetOracleDelegateToken / GetUnbondingDelegation can see);
+       entry exists" (what GetOracleDelegateToken / GetUnbondingDelegation can see); the operation Mature
+       stands for time passing beyond the unbonding period;
      - bank errors (insufficient funds) are outside the model;
      - the handler result of a deferred execution is an input of the Exec operation.
    The model keeps the code's behaviour as it is, including what UnbondedOracle deletes.
@@ -51,7 +52,13 @@ Definition dec_one : Z := 1000000000000000000.           (* LegacyDec precision 
 (* module parameters read by the code at run time *)
 Record cfg := { c_threshold : Z;   (* DelegateThreshold.Amount *)
                 c_multiple : Z;    (* DelegateMultiple *)
-                c_slashfrac : Z    (* SlashFraction * 10^18 *) }.
+                c_slashfrac : Z;   (* SlashFraction * 10^18 *)
+                (* two facts of the code under test, probed on the real keeper by the harness on every run
+                   (finding C01-1 and its repair):
+                   - does UnbondedOracle delete the oracle's last-event-nonce cursor (DelLastEventNonceByOracle)?
+                   - does GetLastEventNonceByOracle lift a stored cursor that is older than lastObserved-1? *)
+                c_unbond_del : bool;
+                c_cursor_clamp : bool }.
 
 (* ---------- state ---------- *)
 Record oracle := { o_stake : Z;      (* DelegateAmount *)
@@ -109,9 +116,9 @@ Definition with_oracles (s : st) (os : list (Z * oracle)) : st :=
      atts := atts s; pending := pending s; applied := applied s; effects := effects s; vlog := vlog s |}.
 
 (* GetLastEventNonceByOracle: absent entry => lastObserved-1 (0 if nothing observed yet) *)
-Definition cursor (s : st) (o : Z) : Z :=
+Definition cursor (c : cfg) (s : st) (o : Z) : Z :=
   match aget Z.eqb o (last_by s) with
-  | Some n => n
+  | Some n => if c_cursor_clamp c && (1 <=? last_obs s) && (n <? last_obs s - 1) then last_obs s - 1 else n
   | None => if 1 <=? last_obs s then last_obs s - 1 else 0
   end.
 
@@ -149,7 +156,7 @@ Definition prune (lobs : Z) (l : list ((Z * Z) * att)) : list ((Z * Z) * att) :=
   else filter (fun p => (lobs - max_keep) <? fst (fst p)) l.
 
 (* ---------- Claim ---------- *)
-Definition vote (s : st) (bridger nonce cls : Z) (park : bool) (members : list Z) : st * res :=
+Definition vote (c : cfg) (s : st) (bridger nonce cls : Z) (park : bool) (members : list Z) : st * res :=
   (* checkBridgerIsOracle *)
   match aget Z.eqb bridger (by_bridger s) with
   | None => (s, Err E_NoOracle)
@@ -162,7 +169,7 @@ Definition vote (s : st) (bridger nonce cls : Z) (park : bool) (members : list Z
       else if negb (forallb (fun m => match aget Z.eqb m (by_ext s) with Some _ => true | None => false end) members)
       then (s, Err E_Invalid)
       (* Attest *)
-      else if negb (nonce =? cursor s o + 1) then (s, Err E_NonContig)
+      else if negb (nonce =? cursor c s o + 1) then (s, Err E_NonContig)
       else
         let a0 := match aget keq (nonce, cls) (atts s) with
                   | Some a => a
@@ -308,22 +315,30 @@ Definition gov_set (s : st) (new : list Z) : st * res :=
           last_total := last_total s; last_obs := last_obs s; last_by := last_by s; atts := atts s;
           pending := pending s; applied := applied s; effects := effects s; vlog := vlog s |}, Ok).
 
-(* ---------- UnbondedOracle ---------- *)
+(* ---------- UnbondedOracle ----------
+   (the unbonding of the removed oracle's stake must have completed: refused while an unbonding entry exists;
+    the matured stake then sits on the delegate address and covers the slash amount) *)
 Definition unbond (c : cfg) (s : st) (o : Z) : st * res :=
   if zmem o (proposal s) then (s, Err E_Invalid)
   else match aget Z.eqb o (oracles s) with None => (s, Err E_NoOracle) | Some rec =>
     if o_online rec then (s, Err E_Invalid)
-    else if negb (o_unb rec) then (s, Err E_Staking)
-    else if 0 <? slash_amount c rec then (s, Err E_Invalid)   (* delegate address cannot cover the slash amount *)
+    else if o_unb rec then (s, Err E_Invalid)                 (* "exist unbonding delegation" *)
     else
       ({| proposal := proposal s; oracles := adel Z.eqb o (oracles s);
           by_bridger := adel Z.eqb (o_bridger rec) (by_bridger s);
           by_ext := adel Z.eqb (o_ext rec) (by_ext s);
           last_total := last_total s; last_obs := last_obs s;
-          last_by := adel Z.eqb o (last_by s);               (* DelLastEventNonceByOracle *)
+          last_by := if c_unbond_del c then adel Z.eqb o (last_by s) else last_by s;  (* DelLastEventNonceByOracle *)
           atts := atts s; pending := pending s; applied := applied s; effects := effects s;
           vlog := vlog s |}, Ok)
   end.
+
+(* ---------- time passes beyond the unbonding period: the staking end blocker completes every unbonding ---------- *)
+Definition matured (o : oracle) : oracle :=
+  {| o_stake := o_stake o; o_online := o_online o; o_bridger := o_bridger o; o_ext := o_ext o;
+     o_slash := o_slash o; o_deleg := o_deleg o; o_unb := false |}.
+Definition mature (s : st) : st :=
+  with_oracles s (map (fun p : Z * oracle => (fst p, matured (snd p))) (oracles s)).
 
 (* ---------- EditBridger ---------- *)
 Definition edit_bridger (s : st) (o b : Z) : st * res :=
@@ -350,11 +365,12 @@ Inductive op :=
 | Refresh                                  (* AddOracleSetRequest: SetLastTotalPower *)
 | GovSet (os : list Z)
 | Unbond (o : Z)
-| EditBridger (o b : Z).
+| EditBridger (o b : Z)
+| Mature.
 
 Definition step (c : cfg) (s : st) (x : op) : st * res :=
   match x with
-  | Vote b n cl park ms => vote s b n cl park ms
+  | Vote b n cl park ms => vote c s b n cl park ms
   | Exec n ok => exec s n ok
   | Bond o b e stake => bond c s o b e stake
   | AddDelegate o a => add_delegate c s o a
@@ -363,6 +379,7 @@ Definition step (c : cfg) (s : st) (x : op) : st * res :=
   | GovSet l => gov_set s l
   | Unbond o => unbond c s o
   | EditBridger o b => edit_bridger s o b
+  | Mature => (mature s, Ok)
   end.
 
 Definition run (c : cfg) (s : st) (h : list op) : st := fold_left (fun s x => fst (step c s x)) h s.
@@ -389,11 +406,11 @@ Definition validate_basic (unpacked chk : bool) (t : claim_tx) : bool :=
   unpacked && t_inner_valid t && (negb chk || (t_wrapper t =? t_inner t)).
 Definition E_Unauthorized := 10.
 
-Definition deliver_claim (unpacked chk : bool) (s : st) (signers : list Z) (t : claim_tx) : st * res :=
+Definition deliver_claim (c : cfg) (unpacked chk : bool) (s : st) (signers : list Z) (t : claim_tx) : st * res :=
   if negb (validate_basic unpacked chk t) then (s, Err E_Invalid)
   else if negb (zmem (required_signer t) signers) then (s, Err E_Unauthorized)
-  else vote s (t_inner t) (t_nonce t) (t_cls t) (t_park t) (t_members t).
+  else vote c s (t_inner t) (t_nonce t) (t_cls t) (t_park t) (t_members t).
 
 (* the code as it is *)
-Definition deliver_claim_mem := deliver_claim true false.     (* message object with its value present *)
-Definition deliver_claim_bytes := deliver_claim false false.  (* transaction decoded from bytes *)
+Definition deliver_claim_mem (c : cfg) := deliver_claim c true false.     (* message object with its value present *)
+Definition deliver_claim_bytes (c : cfg) := deliver_claim c false false.  (* transaction decoded from bytes *)
